@@ -75,6 +75,11 @@ func FindNonEmpty(fns []*ssa.Function) []*NEObligation {
 						add(x, k+1, fmt.Sprintf("x[%d]", k))
 					} else if c, k, ok := lenMinus(index); ok && core.AP(c) == core.AP(x) {
 						add(x, k, fmt.Sprintf("x[len(x)-%d]", k))
+					} else if prm, isPrm := index.(*ssa.Parameter); isPrm {
+						// a position handed down by the callers of an unexported helper: constant at every call site
+						if k, ok := maxConstArg(prm); ok {
+							add(x, k+1, fmt.Sprintf("x[p] with p <= %d at every call site", k))
+						}
 					}
 				}
 				switch x := ins.(type) {
@@ -609,4 +614,74 @@ func InductiveNonEmpty(in ssa.Instruction, container ssa.Value) (bool, string) {
 		}
 	}
 	return false, ""
+}
+
+
+// CallSitesOf lists the static call sites of a package-level function inside its own package and reports whether the
+// function is also used as a value (stored, passed, deferred through a variable): then it can be called from places that
+// are not listed.
+func CallSitesOf(fn *ssa.Function) (sites []ssa.CallInstruction, escapes bool) {
+	if fn == nil || fn.Pkg == nil {
+		return nil, true
+	}
+	var buf [12]*ssa.Value
+	for _, g := range pkgFunctions(fn.Pkg) {
+		for _, b := range g.Blocks {
+			for _, in := range b.Instrs {
+				call, isCall := in.(ssa.CallInstruction)
+				for _, op := range in.Operands(buf[:0]) {
+					if op == nil || *op != ssa.Value(fn) {
+						continue
+					}
+					if isCall && call.Common().Value == ssa.Value(fn) && !call.Common().IsInvoke() {
+						// counted below; but fn may also be one of the arguments
+						continue
+					}
+					escapes = true
+				}
+				if isCall && call.Common().Value == ssa.Value(fn) && !call.Common().IsInvoke() {
+					sites = append(sites, call)
+					for _, a := range call.Common().Args {
+						if a == ssa.Value(fn) {
+							escapes = true
+						}
+					}
+				}
+			}
+		}
+	}
+	return sites, escapes
+}
+
+// maxConstArg: prm is a parameter of an unexported function that is only called directly, with an integer constant in
+// that position at every call site; returns the largest such constant.
+func maxConstArg(prm *ssa.Parameter) (int64, bool) {
+	fn := prm.Parent()
+	if fn == nil || fn.Object() == nil || fn.Object().Exported() || fn.Parent() != nil {
+		return 0, false
+	}
+	idx := -1
+	for i, q := range fn.Params {
+		if q == prm {
+			idx = i
+		}
+	}
+	sites, esc := CallSitesOf(fn)
+	if esc || len(sites) == 0 || idx < 0 {
+		return 0, false
+	}
+	m := int64(-1)
+	for _, call := range sites {
+		if idx >= len(call.Common().Args) {
+			return 0, false
+		}
+		k, ok := core.ConstInt(call.Common().Args[idx])
+		if !ok || k < 0 {
+			return 0, false
+		}
+		if k > m {
+			m = k
+		}
+	}
+	return m, true
 }
